@@ -119,8 +119,10 @@ def ensure(asan=False, verbose=True):
             if r.returncode != 0:
                 sys.stderr.write(r.stdout[-6000:])
                 shutil.rmtree(tmp, ignore_errors=True)
-                raise SystemExit("BUILD FAILED (check is broken, not a "
-                                 "verdict): build_ext exit %d" % r.returncode)
+                sys.stderr.write("BUILD FAILED (check is broken, not a "
+                                 "verdict): build_ext exit %d\n"
+                                 % r.returncode)
+                raise SystemExit(2)
             os.makedirs(socache, exist_ok=True)
             for p in PKGS:
                 shutil.copy2(os.path.join(tmp, _so_name(p)),
